@@ -116,6 +116,8 @@ class MarkerExpression(SingleMarker):
                 # padding changes the meaning of ~=X.Y and X.* operands
                 and pkg_spec.operator != "~="
                 and not pkg_version.endswith(".*")
+                # "3.8a1" + ".0" would not be a version any more
+                and pkg_version.replace(".", "").isdigit()
             ):
                 for _ in range(2 - dot_num):
                     pkg_version += ".0"
